@@ -17,7 +17,7 @@ RULE = (
     "(shape, observed pattern, k, batch set); non-trivial = the batch is non-empty or some sample has fewer than k plates"
 )
 ASSUMPTIONS = ["states are memoised on the set of batch plates (quick: <=9 plates; thorough: always) or on per-sample batch counts (larger shapes)"]
-REQUIRED = {"selections_from_a_partial_set_of_scores": {"quick": 60, "thorough": 800}, "batches_given_as_tuple_set_frozenset_or_dict_keys": {"quick": 100, "thorough": 1500}, "multi_sample_refusals_after_earlier_calls": {"quick": 40, "thorough": 300}, "walk_steps_with_mostly_posinf_scores": {"quick": 80, "thorough": 1200}, "screens_with_interleaved_plate_ids": {"quick": 60, "thorough": 400}, "holders_not_in_plate_id_order": {"quick": 1000, "thorough": 8000}, "states_checked": {"quick": 3000, "thorough": 20000}, "walk_steps": {"quick": 300, "thorough": 5000}, "multi_sample_refusals": {"quick": 40, "thorough": 250}, "multi_sample_layout_1": {"quick": 6, "thorough": 40}, "batches_revealed_in_place": {"quick": 60, "thorough": 800}}
+REQUIRED = {"big_panel_steps_with_a_sample_id_above_256_in_the_batch": {"quick": 40, "thorough": 300}, "selections_from_a_partial_set_of_scores": {"quick": 60, "thorough": 800}, "batches_given_as_tuple_set_frozenset_or_dict_keys": {"quick": 100, "thorough": 1500}, "multi_sample_refusals_after_earlier_calls": {"quick": 40, "thorough": 300}, "walk_steps_with_mostly_posinf_scores": {"quick": 80, "thorough": 1200}, "screens_with_interleaved_plate_ids": {"quick": 60, "thorough": 400}, "holders_not_in_plate_id_order": {"quick": 1000, "thorough": 8000}, "states_checked": {"quick": 3000, "thorough": 20000}, "walk_steps": {"quick": 300, "thorough": 5000}, "multi_sample_refusals": {"quick": 40, "thorough": 250}, "multi_sample_layout_1": {"quick": 6, "thorough": 40}, "batches_revealed_in_place": {"quick": 60, "thorough": 800}}
 
 
 def build_screen(Screen, shape, observed_plates=(), multi=None, multi_where=2, perm=None):
@@ -216,10 +216,18 @@ def run_shard(rec, tier, seed, shard, nshards):
 
     # ------------------------------------------------ random walks on larger screens
     n_walks = 40 if tier == "quick" else 300
-    for wi in range(n_walks):
+    for wi in range(n_walks + 1):
         ns = int(rng.integers(1, 7))
         shape = tuple(int(x) for x in rng.integers(1, 9, size=ns))
         k = int(rng.integers(1, 6))
+        big_panel = wi == n_walks
+        if big_panel:
+            # a panel the size of a real cell-line collection: sample ids run past 256 (beyond CPython's shared small
+            # integers, past one byte), 1-3 plates per sample; the walk is capped, not exhaustive
+            ns = int(rng.integers(270, 340))
+            k = int(rng.integers(2, 4))
+            shape = tuple(int(x) for x in rng.integers(k - 1, k + 2, size=ns))
+            rec.count("walks_on_a_panel_of_more_than_256_samples")
         tot = sum(shape)
         observed = tuple(sorted(int(x) for x in rng.choice(tot, size=int(rng.integers(0, tot // 2 + 1)), replace=False)))
         perm = rng.permutation(tot) if rng.random() < 0.6 else None
@@ -232,8 +240,15 @@ def run_shard(rec, tier, seed, shard, nshards):
         batch = ()
         trace = []
         multi_batch = bool(rng.random() < 0.5)
-        for _ in range(2 * tot + 2):
+        for _ in range(2 * tot + 2 if not big_panel else 45):
             scores = {p: float(rng.choice([0.0, 1.0, 2.0, float("-inf"), rng.normal()])) for p in unobserved}
+            if big_panel:
+                # the late samples of the panel are the attractive ones
+                for p in unobserved:
+                    if sample_of[p] < 257:
+                        scores[p] = scores[p] + 50.0 if np.isfinite(scores[p]) else 50.0
+                if batch and sample_of[batch[-1]] >= 257:
+                    rec.count("big_panel_steps_with_a_sample_id_above_256_in_the_batch")
             if rng.random() < 0.3:
                 # overflowed scores: +inf on most plates (often on every plate the policy allows), so that the choice
                 # is made among equal +inf values
